@@ -329,13 +329,13 @@ func genItem(r *rng, sz int, cname bool) rtcp.SourceDescriptionItem {
 		}
 	}
 	if sz == szTypical && r.narrow && !r.chance(8) {
-		return rtcp.SourceDescriptionItem{Type: t, Text: vocabText(16, r.intn(4))}
+		return rtcp.SourceDescriptionItem{Type: t, Text: vocabText([]int{16, 16, 40}[r.intn(3)], r.intn(4))}
 	}
 	if sz == szTypical && !r.chance(3) {
 		// Texts of a real session come from a small vocabulary of equal-length strings (a stack generates all its
 		// CNAMEs the same way): values recur and near-collide across the packets of one run, which is what
 		// exercises tables keyed by a text or by its digest.
-		return rtcp.SourceDescriptionItem{Type: t, Text: vocabText(16-8*(r.intn(4)/3), r.intn(vocabWords))}
+		return rtcp.SourceDescriptionItem{Type: t, Text: vocabText([]int{16, 16, 16, 8, 8, 40, 72}[r.intn(7)], r.intn(vocabWords))}
 	}
 	return rtcp.SourceDescriptionItem{Type: t, Text: r.text(n)}
 }
@@ -344,7 +344,8 @@ const vocabWords = 40
 
 // vocabText returns word i of the fixed vocabulary of n-octet texts (n >= 2): the words differ in their last two octets.
 func vocabText(n, i int) string {
-	const stem = "k7Qe2xLmP0vTz9Rb"
+	// (tool names, user agents and gateway CNAMEs share long prefixes: the longer words do too)
+	const stem = "k7Qe2xLmP0vTz9RbpionWebRTC-gateway/3.2.29 (linux; amd64) session-0000000000000000"
 	b := []byte(stem[:n])
 	b[n-2] = byte('A' + i/8)
 	b[n-1] = byte('a' + i%8*3)
